@@ -1188,9 +1188,25 @@ def v_any(it):
     if hasattr(it, "__symany__"):
         return it.__symany__()
     if isinstance(it, SymSeq):
-        # over-approximation: the truth value of any()/all() over a symbolic sequence is unconstrained
+        # exact: true iff some position holds a true element (witness index), false iff every position holds a false one
         c = cur()
-        return SymBool(c.fresh(c.fresh_name("any"), BOOL))
+        b = c.fresh(c.fresh_name("any"), BOOL)
+        try:
+            c.nofork += 1
+            w = c.fresh(c.fresh_name("any.witness"), INT)
+            n0 = len(c.pc)
+            tw = B(it.elem(w))
+            side_w = c.pc[n0:]
+            del c.pc[n0:]
+            c.pc.append(tm.Implies(b, tm.And(tm.Le(tm.mk_int(0), w), tm.Lt(w, it.length), *side_w, tw)))
+            jv = tm.Var(c.fresh_name("j!bound"), INT)
+            c.pc.append(tm.Implies(tm.Not(b), quantified(
+                [(jv.s, INT)], lambda: tm.Not(B(it.elem(jv))), guard=tm.And(tm.Le(tm.mk_int(0), jv), tm.Lt(jv, it.length)))))
+        except sym.Speculation:
+            pass  # the element test branches: the truth value stays unconstrained (over-approximation)
+        finally:
+            c.nofork -= 1
+        return SymBool(b)
     it = builtins.list(it)
     if any(is_symbolic(x) for x in it):
         return wrap_bool(tm.Or(*[B(x) for x in it]))
@@ -1345,10 +1361,12 @@ def seq_member_t(q, p) -> tm.T:
     return tm.Exists([(jv.s, INT)], tm.And(tm.Le(tm.mk_int(0), jv), tm.Lt(jv, q.length), B(sym.sym_eq(x, p))))
 
 
-def quantified(bound, body_fn):
-    """forall bound. side(bound) => body, where evaluating body_fn (element accesses of symbolic sequences with the
-    bound variables) may record instance facts `side`; they hold for every value, so they are assumed under the
-    same quantifier and never leak a bound variable into the path condition."""
+def quantified(bound, body_fn, guard=None):
+    """A universally quantified formula whose body is built by running body_fn with the bound variables.  Evaluating
+    the body (element accesses of symbolic sequences) may record instance facts `side` that are known to hold for the
+    positions in range.  Without `guard` the result is forall. side => body, which is right for a *goal* and for
+    bodies without side facts.  With `guard` (the in-range condition, as a function of nothing: a term over the bound
+    variables) the result is the *assumption* form forall. guard => (side and body)."""
     c = cur()
     n0 = len(c.pc)
     ob0, tr0 = len(c.obligations), len(c.trace)
@@ -1361,4 +1379,6 @@ def quantified(bound, body_fn):
         del c.trace[tr0:]
     side = c.pc[n0:]
     del c.pc[n0:]
+    if guard is not None:
+        return tm.ForAll(bound, tm.Implies(guard, tm.And(*side, body)))
     return tm.ForAll(bound, tm.Implies(tm.And(*side), body) if side else body)
